@@ -128,8 +128,8 @@ class ClsV:
 class FuncV:
     """Callable model: fn(ex, st, args, kwargs, node) -> value."""
 
-    def __init__(self, fn, name="?"):
-        self.fn, self.name = fn, name
+    def __init__(self, fn, name="?", attrs=None):
+        self.fn, self.name, self.attrs = fn, name, dict(attrs or {})      # attrs: a class modelled by its constructor + static methods
 
 
 class ModV:
@@ -448,7 +448,7 @@ class Exec:
 
     def getattr(self, st, v, attr, node=None):
         from . import npmodel
-        if isinstance(v, ModV):
+        if isinstance(v, (ModV, FuncV)):
             if attr in v.attrs:
                 return v.attrs[attr]
             raise Undecided(f"{v.name}.{attr} is not modelled")
@@ -1284,6 +1284,11 @@ class Exec:
             dv = self.arr(st, val)
             if not z3.eq(z3.simplify(dv.shape[0]), z3.simplify(d.shape[1])):
                 self.safe(st, "row-store-length", dv.shape[0] == d.shape[1], node)
+            if getattr(self.k, "native_row_store", False) and dv.rank == 1 and dv.elem == d.elem:
+                # the row becomes the value's storage term itself (array-theory store on the nested array): same content as the
+                # element-wise form below, but a row that is an uninterpreted array term stays one
+                self.write_arr(st, ref, ArrData(d.shape, z3.Store(d.data, rr, dv.data), d.elem, d.owner, d.view_of), node)
+                return
         body = z3.If(r == rr, elem_at(val, c), self.sel2(d, r, c))
         self.write_arr(st, ref, ArrData(d.shape, L2(r, c, body), d.elem, d.owner, d.view_of), node)
 
